@@ -289,9 +289,49 @@ def run_slow_integrated(rep, rng, n, sb):
     return found
 
 
+def run_global_limit(rep, rng, n):
+    """Complete APTMirror.run() with a small limit_rate and 1-3 repositories mirrored concurrently: the
+    limit is one budget for the whole instance, so the bytes written by ALL repositories in any interval
+    obey the same window bound as a single transfer."""
+    from . import pipeline as P
+    found = False
+    sb = P.sandbox("vsb_c19p_")
+    try:
+        for i in range(n):
+            nrepos = rng.choice([1, 2, 2, 3])
+            scn = P.gen_scenario(rng, nrepos=nrepos)
+            limit = rng.choice([2 ** 6, 2 ** 7, 2 ** 8])   # bucket capacity 60*limit: far below one repository's volume
+            scn.limit_rate = str(limit)
+            scn.nthreads = rng.choice([2, 4, 8])
+            writes = []
+            res = P.run_tool(scn, sb / f"g{i}", on_write=lambda t, nb: writes.append((t, nb)))
+            total = sum(nb for _, nb in writes)
+            rep.case(("global_limit", nrepos, limit, res.code, min(total // 20000, 9)),
+                     sample={"repos": nrepos, "limit": limit, "bytes": total, "exit": res.code})
+            rep.count(f"global.repos.{nrepos}")
+            jc = {"kind": "global_limit", "repos": scn.repos, "nthreads": scn.nthreads, "limit": limit}
+            if res.code != 0:
+                found = True
+                rep.violation(f"fault-free rate-limited run exits {res.code} ({res.exc})",
+                              {"kind": "oracle", "tie": "global_limit", "case": jc}, tags={"oracle": "global_exit"})
+            writes.sort()
+            bad = window_violation(writes, limit, 64)
+            if bad:
+                found = True
+                a, b, tot, T = bad
+                rep.violation(f"limit_rate {limit} B/s with {nrepos} repositories: {tot} bytes written within {T:.1f} s "
+                              f"(allowed {int(limit * (T + 60)) + 64})",
+                              {"kind": "oracle", "tie": "global_limit", "case": jc}, tags={"oracle": "global_window"})
+            shutil.rmtree(sb / f"g{i}", ignore_errors=True)
+    finally:
+        shutil.rmtree(sb, ignore_errors=True)
+    return found
+
+
 def run(rep: C.Report):
     rep.rule = ("(a) 1-4 concurrent transfers with scripted chunk sizes (below, at and above the bucket "
                 "capacity) and arrival delays under limit_rate in {1Ki,4Ki,16Ki} B/s on a virtual clock; "
+                "(a') complete runs of 1-3 concurrently mirrored repositories under one small limit_rate; "
                 "(b) SlowRateProtector event sequences (elapsed incl. fractional seconds, day wrap) over "
                 "startup/threshold values; (c) integrated slow/fast/grace transfers; distinct by "
                 "(tie, parameters, outcome pattern)")
@@ -305,9 +345,10 @@ def run(rep: C.Report):
         rows, crow, found = run_limiter(rep, rng, 150 if rep.tier == "quick" else 3000, sb)
         srows, f2 = run_slow_unit(rep, rng, 400 if rep.tier == "quick" else 10000)
         f3 = run_slow_integrated(rep, rng, 12 if rep.tier == "quick" else 200, sb)
+        f4 = run_global_limit(rep, random.Random(rep.seed + 1919), 10 if rep.tier == "quick" else 300)
     finally:
         shutil.rmtree(sb, ignore_errors=True)
-    found = found or f2 or f3
+    found = found or f2 or f3 or f4
     header = HEADER + COQ_DEFS
     for tie, rs, fn, eqb in (("limiter", rows, "m_limiter", "eq_oq"), ("charges", crow, "m_charges", "eq_lz"),
                              ("slow", srows, "m_slow", "eq_lb")):
